@@ -435,6 +435,7 @@ func NewDecoder(n int, sep string, r io.Reader) (sts.PayloadDecoder, error) {
 		for _, part := range binReader.meta {
 			part.Name = filepath.Join(strings.Split(part.Name, sep)...)
 			part.Prev = filepath.Join(strings.Split(part.Prev, sep)...)
+			part.Renamed = filepath.Join(strings.Split(part.Renamed, sep)...)
 		}
 	}
 	return binReader, err
